@@ -182,11 +182,15 @@ func (c *completion) complete(args []string) []Completion {
 	// first of them
 	remaining := 0
 
+	// After the terminator the last word is an argument, never an option
+	terminated := false
+
 	for len(s.args) > 1 {
 		arg := s.pop()
 
 		if (c.parser.Options&PassDoubleDash) != None && arg == "--" {
 			opt = nil
+			terminated = true
 			c.skipPositional(s, len(s.args)-1)
 
 			break
@@ -254,7 +258,7 @@ func (c *completion) complete(args []string) []Completion {
 	if opt != nil {
 		// Completion for the argument of 'opt'
 		ret = c.completeValue(opt.value, "", lastarg)
-	} else if argumentStartsOption(lastarg) {
+	} else if !terminated && argumentStartsOption(lastarg) {
 		// Complete the option
 		prefix, optname, islong := stripOptionPrefix(lastarg)
 		optname, split, argument := splitOption(prefix, optname, islong)
@@ -286,7 +290,7 @@ func (c *completion) complete(args []string) []Completion {
 	} else if len(s.positional) > 0 {
 		// Complete for positional argument
 		ret = c.completeValue(s.positional[0].value, "", lastarg)
-	} else if len(s.command.commands) > 0 && remaining == 0 {
+	} else if len(s.command.commands) > 0 && remaining == 0 && !terminated {
 		// Complete for command
 		ret = c.completeCommands(s, lastarg)
 	}
